@@ -178,7 +178,6 @@ Section Arity.
             [|cbn [ok_item2] in O; rewrite GS, SA in O; rewrite ?andb_false_r in O; discriminate].
           rewrite (ok_item_mac2 cx ps ex ws name post args fol sp l GS SA) in O.
           apply andb_true_iff in O. destruct O as [_ O]. apply andb_true_iff in O. destruct O as [O _].
-          apply andb_true_iff in O. destruct O as [O _].
           fold (lsize2 args) in H. exact (ok_args_arity n IHn args _ _ _ ltac:(lia) O).
         - rewrite ok_item_math2 in O. apply andb_true_iff in O. destruct O as [O _].
           apply andb_true_iff in O. destruct O as [_ O].
@@ -188,8 +187,7 @@ Section Arity.
           destruct (sp_args sp) as [l|lk] eqn:SA;
             [|cbn [ok_item2] in O; rewrite GS, SA in O; rewrite ?andb_false_r in O; discriminate].
           rewrite (ok_item_env2 cx ps ex ws bws name args b tr ews fol sp l GS SA) in O.
-          apply andb_true_iff in O. destruct O as [_ O]. apply andb_true_iff in O. destruct O as [O OB].
-          apply andb_true_iff in O. destruct O as [OA _].
+          apply andb_true_iff in O. destruct O as [_ O]. apply andb_true_iff in O. destruct O as [OA OB].
           fold (lsize2 args) in H. fold (lsize2 b) in H. cbn [arity2]. rewrite GS, SA.
           split; [exact (ok_args_length2 cx ps args _ l OA)|].
           split; [exact (ok_args_arity n IHn args _ _ _ ltac:(lia) OA) | exact (IL b _ _ _ ltac:(lia) OB)].
@@ -198,7 +196,7 @@ Section Arity.
           destruct (sp_args sp) as [l|lk] eqn:SA;
             [|cbn [ok_item2] in O; rewrite GS, SA in O; rewrite ?andb_false_r in O; discriminate].
           rewrite (ok_item_spc2 cx ps ex ws chars args fol sp l GS SA) in O.
-          apply andb_true_iff in O. destruct O as [_ O]. apply andb_true_iff in O. destruct O as [O _].
+          apply andb_true_iff in O. destruct O as [_ O].
           fold (lsize2 args) in H. exact (ok_args_arity n IHn args _ _ _ ltac:(lia) O).
         - (* verbatim environment *)
           cbn [ok_item2] in O. fold (lsize2 oarg) in H.
